@@ -8,12 +8,9 @@ package mapping_test
 //   http : P5 httpc -> router -> httpx.Parse round trip (c05_http_test.go)
 
 import (
-	"bufio"
 	"fmt"
-	"os"
 	"reflect"
 	"strings"
-	"sync"
 	"testing"
 
 	"github.com/gotid/god/lib/conf"
@@ -27,52 +24,18 @@ func init() {
 	logx.Disable()
 }
 
-// ---- known findings: the kit consults /verif/known_findings.txt (fixed by the
-// driver). While a finding is not listed there, a private list
-// (VERIF_C05_KNOWN=/verif/.work/C05-known.txt, same line format) lets the search
-// continue past it during development: such cases are counted under the class
-// "tolerated:<id>" instead of failing. Without that variable nothing is tolerated.
+// Known findings: every failure that matches one of the narrow predicates of the
+// oracle carries Verdict.Known = <id>; the kit tolerates it only while
+// known_findings.txt (or the file named by VERIF_KNOWN) has an "open:" line for it.
+// All nine ids found on 7bc7747 were fixed in /repo (b1a1e84, 84fc494), so they are
+// reported as VIOLATIONs again if a regression re-introduces them.
 
-var (
-	c05PrivOnce sync.Once
-	c05Priv     map[string]bool
-)
+func c05Open(id string) bool { return kit.KnownOpen("C05", id) }
 
-func c05PrivateOpen(id string) bool {
-	c05PrivOnce.Do(func() {
-		c05Priv = map[string]bool{}
-		p := os.Getenv("VERIF_C05_KNOWN")
-		if p == "" {
-			return
-		}
-		f, err := os.Open(p)
-		if err != nil {
-			return
-		}
-		defer f.Close()
-		sc := bufio.NewScanner(f)
-		for sc.Scan() {
-			line := strings.TrimSpace(sc.Text())
-			if !strings.HasPrefix(line, "open:") || !strings.Contains(line, "property=C05") {
-				continue
-			}
-			for _, w := range strings.Fields(line) {
-				if strings.HasPrefix(w, "id=") {
-					c05Priv[strings.TrimPrefix(w, "id=")] = true
-				}
-			}
-		}
-	})
-	return c05Priv[id]
-}
-
-func c05Open(id string) bool { return kit.KnownOpen("C05", id) || c05PrivateOpen(id) }
-
-// c05Finish applies the private tolerance and fills the verdict.
+// c05Finish fills classes and the non-trivial flag of the verdict.
 func c05Finish(v kit.Verdict, o *c05Oracle, depth int) kit.Verdict {
-	if v.Fail != "" && v.Known != "" && !kit.KnownOpen("C05", v.Known) && c05PrivateOpen(v.Known) {
-		o.class("tolerated:" + v.Known)
-		v.Fail, v.Known = "", ""
+	if v.Fail != "" && v.Known != "" {
+		o.class("known:" + v.Known)
 	}
 	v.NonTrivial = o.hot || depth >= 3
 	if depth >= 3 {
